@@ -356,6 +356,11 @@ def run_scenario(run, tape, sc):
         out.alive_after = [p.pid for p in mp.processes if p.alive_quiet()]
         sim.sleep(0.05 + 0.02 + sc.slow_start + sc.exit_delay + (0.01 if sc.jitter else 0))
         out.alive_after_grace = [p.pid for p in mp.processes if p.alive_quiet()]
+        if out.alive_after_grace:
+            # a worker that could not be killed lives on while its replay lasts; once that returns it must notice that
+            # the run is over and leave
+            sim.sleep(sc.timeout + 3.0 + sc.exit_delay)
+        out.alive_eventually = [p.pid for p in mp.processes if p.alive_quiet()]
         if killer is not None:
             sim.join(killer, 1.0)
 
